@@ -441,6 +441,11 @@ where
                 self.signal_pending = match self.signal_pending {
                     // no signal pending, so signal all *other* machines
                     None => Some(SignalTarget::AllExcept(mi)),
+                    // the pending signal is from this machine: still only
+                    // signal all *other* machines
+                    Some(SignalTarget::AllExcept(excluded)) if excluded == mi => {
+                        Some(SignalTarget::AllExcept(mi))
+                    }
                     // signal already pending from another machine, so signal
                     // all machines (including this one)
                     _ => Some(SignalTarget::All),
